@@ -25,6 +25,7 @@ RULE = (
     "option subset and optionally without the optional model parameters delta/phi. Non-trivial = >=3 operations, >=2 distinct value sets used and some (values, engine, options, "
     "subset) repeated. Distinct = SHA-1 of the case."
 )
+RULE += ' The supplied dictionary is a dict or a defaultdict; per case either one engine object per kind is kept for the whole history or a fresh one is made per call.'
 BUDGET = {"quick": {"examples": 150, "shards": 4}, "thorough": {"fuzz_runs": 3000, "examples": 2000, "shards": 16}}
 EXPECTED_LABELS = ("op:numpy", "op:numpy-persist", "op:numpy-next", "op:SX", "op:MX", "op:compile", "partial-init", "opts", "repeat",
                    "numpy-after-casadi", "interior-ramp", "merge", "vsl:some", "origin:main")
